@@ -413,7 +413,8 @@ func tkSecret(r *Rng) (string, string) {
 	case 6:
 		return "", "empty"
 	default:
-		return strings.Repeat(tkWeirdString(r, 3)+"x", 1+r.Intn(200)), "long"
+		// cashu.MAX_SECRET_LENGTH is 512: go somewhat beyond it
+		return strings.Repeat(tkWeirdString(r, 3)+"x", 1+r.Intn(60)), "long"
 	}
 }
 
@@ -712,7 +713,7 @@ func (b *tkBatch) maybeFlush() {
 // ---------------------------------------------------------------- stream "token"
 
 func runToken(c *Ctx) {
-	n := 1500
+	n := 1000
 	if c.Thorough {
 		n = 15000
 	}
@@ -1158,15 +1159,6 @@ func tkExpectDecode(c *Ctx, model string) (string, bool) {
 			if version == 4 {
 				var t cashu.TokenV4
 				uerr := cbor.Unmarshal(p, &t)
-				// one-directional tie of the canonical CBOR parser: what it accepts, cbor.Unmarshal decodes identically
-				if canon := c.Drv.Ask(L(A("token.parse-cbor"), tkHex(p))); canon != "none" {
-					c.Hist("canonical-parser", "cbor: accepted")
-					if uerr != nil || canon != Render(L(A("some"), tkV4Sx(t, false))) {
-						c.Disagree([]string{"C14"}, "token.parse-cbor "+hex.EncodeToString(p), fmt.Sprintf("real cbor.Unmarshal: err=%v token=%s", uerr, tkClip(Render(tkV4Sx(t, false)), 1500)), tkClip(canon, 1500), nil)
-					}
-				} else {
-					c.Hist("canonical-parser", "cbor: not canonical")
-				}
 				if uerr != nil {
 					return mkErr("cbor.Unmarshal: " + uerr.Error())
 				}
@@ -1174,14 +1166,6 @@ func tkExpectDecode(c *Ctx, model string) (string, bool) {
 			}
 			var t cashu.TokenV3
 			uerr := json.Unmarshal(p, &t)
-			if canon := c.Drv.Ask(L(A("token.parse-json"), tkHex(p))); canon != "none" {
-				c.Hist("canonical-parser", "json: accepted")
-				if uerr != nil || canon != Render(L(A("some"), tkV3Sx(t))) {
-					c.Disagree([]string{"C14"}, "token.parse-json "+hex.EncodeToString(p), fmt.Sprintf("real json.Unmarshal: err=%v token=%s", uerr, tkClip(Render(tkV3Sx(t)), 1500)), tkClip(canon, 1500), nil)
-				}
-			} else {
-				c.Hist("canonical-parser", "json: not canonical")
-			}
 			if err := uerr; err != nil {
 				return mkErr("error unmarshaling token: " + err.Error())
 			}
@@ -1212,6 +1196,51 @@ func tkExpectDecode(c *Ctx, model string) (string, bool) {
 		tok = Render(L(A("err"), S("invalid token: "+m3)))
 	}
 	return "V4=" + t4 + " V3=" + t3 + " TOKEN=" + tok, true
+}
+
+// tkCanonicalTie: one-directional tie of the canonical parsers of Model.TokenWire (proved inverses of the modelled
+// marshallers) to the real decoders: whatever payload the canonical parser accepts, the real Unmarshal decodes to the
+// identical token.  The payload is computed here with the real base64 decoders (the model's payload is compared
+// separately by the front-end query), so the query can be batched.
+func tkCanonicalTie(c *Ctx, b *tkBatch, s string, replay any) {
+	if len(s) < 6 || (s[:6] != "cashuA" && s[:6] != "cashuB") {
+		return
+	}
+	p, err := base64.URLEncoding.DecodeString(s[6:])
+	if err != nil {
+		if p, err = base64.RawURLEncoding.DecodeString(s[6:]); err != nil {
+			return
+		}
+	}
+	if s[:6] == "cashuB" {
+		var t cashu.TokenV4
+		uerr := cbor.Unmarshal(p, &t)
+		b.addCheck("canonical-cbor", L(A("token.parse-cbor"), tkHex(p)), func(canon string) string {
+			if canon == "none" {
+				c.Hist("canonical-parser", "cbor: not canonical")
+				return ""
+			}
+			c.Hist("canonical-parser", "cbor: accepted")
+			if uerr == nil && canon == Render(L(A("some"), tkV4Sx(t, false))) {
+				return ""
+			}
+			return fmt.Sprintf("real cbor.Unmarshal: err=%v token=%s", uerr, tkClip(Render(tkV4Sx(t, false)), 1500))
+		}, replay)
+		return
+	}
+	var t cashu.TokenV3
+	uerr := json.Unmarshal(p, &t)
+	b.addCheck("canonical-json", L(A("token.parse-json"), tkHex(p)), func(canon string) string {
+		if canon == "none" {
+			c.Hist("canonical-parser", "json: not canonical")
+			return ""
+		}
+		c.Hist("canonical-parser", "json: accepted")
+		if uerr == nil && canon == Render(L(A("some"), tkV3Sx(t))) {
+			return ""
+		}
+		return fmt.Sprintf("real json.Unmarshal: err=%v token=%s", uerr, tkClip(Render(tkV3Sx(t)), 1500))
+	}, replay)
 }
 
 // tkOutcome renders (token, err, panic) of one decoder call.
@@ -1285,6 +1314,7 @@ func tkFuzzOne(c *Ctx, b *tkBatch, family string, s string) {
 	} else {
 		c.Hist("skipped", "outcome text not valid UTF-8 (not comparable over the line protocol)")
 	}
+	tkCanonicalTie(c, b, s, replay)
 	c.Case("fuzz/"+family+"/"+kind, true)
 	c.Hist("outcome", kind)
 	c.Hist("family", family)
@@ -1492,7 +1522,7 @@ func runTokenFuzz(c *Ctx) {
 	rec("", 3)
 
 	// (2) sampled strings of length 4..8 over the alphabet; also every proper prefix of both version prefixes + 0..3 symbols
-	nSample := 6000
+	nSample := 4000
 	if c.Thorough {
 		nSample = 120000
 	}
@@ -1554,11 +1584,11 @@ func runTokenFuzz(c *Ctx) {
 	}
 
 	// (6) valid tokens: every truncation and 1-byte mutations
-	nTok := 50
+	nTok := 40
 	maxProofs := 3
-	mutPerTok := 300
+	mutPerTok := 200
 	if c.Thorough {
-		nTok = 120
+		nTok = 80
 		maxProofs = 12
 		mutPerTok = 2000
 	}
